@@ -11,7 +11,7 @@ import (
 
 func init() { register("C04", "exploration", checkC04) }
 
-var c04Fields = []string{"f1", "f2", "f3", "n", "m", "", "f\r\n"}
+var c04Fields = []string{"f1", "f2", "f3", "n", "m", "", "f\r\n", "f\xc3\xa9", "\xff\xfe"}
 var c04IntVals = []string{"0", "1", "-1", "5", "-5", "9223372036854775807", "-9223372036854775808", "abc", " 1", "3.5", "9223372036854775806"}
 var c04Deltas = []string{"0", "1", "-1", "3", "-3", "9223372036854775807", "-9223372036854775808", "10", "x", "1.5", ""}
 
@@ -26,7 +26,7 @@ func c04Gen(rng *rand.Rand, m *model.Model, keys []string) []string {
 		if rng.Intn(2) == 0 {
 			return pick(rng, c04IntVals)
 		}
-		return pick(rng, []string{"v", "", "hello", "1.5", "-0.25", "3e3", "x\x00y"})
+		return pick(rng, []string{"v", "", "hello", "1.5", "-0.25", "3e3", "x\x00y", "h\xc3\xa9llo w\xc3\xb6rld", "\xe2\x82\xac\xe2\x82\xac\xe2\x82\xac", "\xff\xfe\xfd"})
 	}
 	if rng.Intn(30) == 0 {
 		// the key's deadline has passed but its object is still stored: every command must treat it as missing
